@@ -55,7 +55,7 @@ CONSTANTS NAs, BSizes, Seeds
 pfInst == {1}
 pfNAs == 1..3
 pfBSizes == 1..3
-pfSeeds == {1, 7, 482549499}      \* 482549499: the first uniform is exactly 0
+pfSeeds == {0, 1, 7, 482549499}   \* 0: a seed that is falsy in Python;  482549499: the first uniform is exactly 0
 PInit == /\ go = FALSE /\ inst = [i \in Inst |-> [s |-> 0, g |-> FALSE, live |-> FALSE]]
          /\ \E f \in Formats : \E kw \in BOOLEAN : \E lay \in Layouts : \E nA \in NAs : \E b \in BSizes : \E sd \in Seeds : \E oh \in BOOLEAN :
               /\ (lay = "none" => b = 1)
